@@ -1,5 +1,12 @@
-"""Pins of the query engine (C03): the sign bit used by the order-preserving i64/f64 -> u64 mappings."""
+"""Pins of the query engine (C03): the sign bit used by the order-preserving i64/f64 -> u64 mappings,
+and the shape of the single-clause shortcut of BooleanWeight::scorer()."""
 
 
 def collect(P):
     P.int_const("C03_HIGHEST_BIT", "common/src/lib.rs", r"^const HIGHEST_BIT: u64 = ([^;]+);", "u64")
+    # 1 iff the one-clause shortcut of BooleanWeight::scorer() returns EmptyScorer when
+    # minimum_number_should_match exceeds the number of should clauses (0 or 1) of that single clause
+    P.flag("C03_SCORER_SINGLE_CLAUSE_CHECKS_MSM", "src/query/boolean_query/boolean_weight.rs",
+           r"else if self\.weights\.len\(\) == 1 \{[^}]*?let num_should_clauses = usize::from\(occur == Occur::Should\);\s*"
+           r"if occur == Occur::MustNot \|\| self\.minimum_number_should_match > num_should_clauses \{\s*"
+           r"Ok\(Box::new\(EmptyScorer\)\)\s*\} else \{\s*weight\.scorer\(reader, boost\)")
